@@ -28,6 +28,38 @@ def ctor_tokens():
     return out
 
 
+def nested_ctor_tokens():
+    """aggregates whose elements are aggregates (of INTEGER) of kind E"""
+    out = []
+    for k in "ALBS":
+        for e in "ALBS":
+            for (b1, b2) in ((1, 3), (0, 2), (1, "n")):
+                if k == "A" and b2 == "n":
+                    b1, b2 = 2, 4
+                for u in ("0", "1") if k in "AL" else ("0",):
+                    out.append("N%s:%s:%s:%s:%s:%s" % (k, b1, b2, u, "1" if (k == "A" and e in "AB") else "0", e))
+    return out
+
+
+def model_tokens(seq):
+    """the same sequence for the model and the reference: a wrong kind of aggregate (s) and the right kind with a wrong
+    base type (t) are both 'a value of another type'"""
+    out = [":".join(seq[0].split(":")[:5])]
+    for t in seq[1:]:
+        if t[0] == "S" and t.endswith(":t"):
+            t = t[:-1] + "s"
+        elif t == "At":
+            t = "As"
+        out.append(t)
+    return out
+
+
+def nested_op_tokens(k):
+    if k in "AL":
+        return ["S%d:%s" % (i, v) for i in range(0, 5) for v in VALS + ["t"]] + ["G%d" % i for i in range(0, 5)] + QUERIES
+    return ["A" + v for v in VALS + ["3", "t"]] + QUERIES
+
+
 def op_tokens(k):
     if k in "AL":
         ops = ["S%d:%s" % (i, v) for i in range(-1, 5) for v in VALS] + ["G%d" % i for i in range(-1, 5)]
@@ -166,16 +198,29 @@ def main(tier, seed):
         c = r.choice(ctors)
         ops = op_tokens(c[1])
         seqs.append([c] + [r.choice(ops) for _ in range(r.randint(4, 40))])
+    # aggregates of aggregates: every sequence of 2 operations, and random ones
+    nctors = nested_ctor_tokens()
+    n_flat = len(seqs)
+    for c in nctors:
+        ops = nested_op_tokens(c[1])
+        for tup in itertools.product(ops, repeat=2):
+            seqs.append([c] + list(tup))
+    for _ in range(nrand // 3):
+        c = r.choice(nctors)
+        ops = nested_op_tokens(c[1])
+        seqs.append([c] + [r.choice(ops) for _ in range(r.randint(4, 30))])
     lines = [" ".join(s) for s in seqs]
     rc_i, io, ierr = run_lines(pyh, lines, env)
-    rc_m, mo, merr = run_lines([drv], lines)
+    seqs = [model_tokens(s) for s in seqs]
+    mlines = [" ".join(s) for s in seqs]
+    rc_m, mo, merr = run_lines([drv], mlines)
     if rc_i != 0:
         res.violation("py_aggr_driver.py failed (status %d): %s" % (rc_i, ierr[-500:]), {}, found_input=False)
     evals = 0
     nontrivial = set()
     disagreements = 0
     oracle_fail = 0
-    hist = {"A": 0, "L": 0, "B": 0, "S": 0, "accepted_ops": 0, "rejected_ops": 0}
+    hist = {"A": 0, "L": 0, "B": 0, "S": 0, "accepted_ops": 0, "rejected_ops": 0, "nested_sequences": len(lines) - n_flat}
     samples = []
     for k, s in enumerate(seqs):
         if k >= len(io) or k >= len(mo):
@@ -228,7 +273,9 @@ def main(tier, seed):
         "distinct_nontrivial": len(nontrivial),
         "rule": "every constructor (4 classes x bounds from {-1,0,1,2,3}^2 plus unbounded upper x UNIQUE/OPTIONAL flags) followed by "
                 "ALL operation sequences of length %d over {set/get at indices -1..4 with two INTEGER values and a STRING, add of 3 "
-                "values + a STRING, six queries}, plus %d random sequences of length 4..40; non-trivial = at least one accepted "
+                "values + a STRING, six queries}, plus %d random sequences of length 4..40; the same for aggregates whose elements "
+                "are aggregates of INTEGER (16 pairs of kinds: the values are inner aggregates of the declared kind, of another kind, and "
+                "of the declared kind OF STRING; all sequences of 2 operations and random ones); non-trivial = at least one accepted "
                 "operation after construction" % (depth, nrand),
         "exhaustive": True,
         "samples": samples or ["(none)"],
@@ -236,7 +283,7 @@ def main(tier, seed):
         "traces_validated_against_impl": evals,
         "correspondence_disagreements": disagreements,
         "oracle_failures": oracle_fail,
-        "unproved_clauses": ["LIST: refuted (c19_list_refuted); no positive theorem", "base types other than INTEGER"],
+        "unproved_clauses": ["LIST: refuted (c19_list_refuted); no positive theorem", "base types other than INTEGER and aggregates of INTEGER"],
     })
     res.assumptions = ["remove is not offered by the Python classes (BAG/SET only have add)"]
     return res.finish()
